@@ -27,7 +27,7 @@ ASSUMPTIONS = ["env.X is by definition the published transformed table; tables w
                "(3 + 2*window days) are not 'daily or finer' and are not generated",
                "a configuration with too little data may be refused at construction (counted as config-rejected)"]
 REQUIRED = ["C18:observation", "C18:bounds", "C18:step-date", "C18:quotes", "C18:rate", "C18:full-window", "C18:published-table"]
-REQUIRED_CATS = ["latency-with-intraday-feature-rows", "earlier-fold-after-later-fold", "last-date-is-a-holiday", "fold-after-holiday-cluster", "rate-off-price-dates", "window>1", "stride", "late-fold", "calendar:LSE", "calendar:NYSE", "transformer:None", "transformer:z-score",
+REQUIRED_CATS = ["decision-refused-then-resubmitted", "latency-with-intraday-feature-rows", "earlier-fold-after-later-fold", "last-date-is-a-holiday", "fold-after-holiday-cluster", "rate-off-price-dates", "window>1", "stride", "late-fold", "calendar:LSE", "calendar:NYSE", "transformer:None", "transformer:z-score",
                  "transformer:yeo-johnson"]
 TECHNIQUE = "runtime monitoring: observations, quotes and step dates of real episodes compared at every call with the tables the environment was given"
 LEVEL_TEXT = ("Exploration over generated table shapes and options; at every call of every episode the observation, the traded quotes, "
@@ -84,7 +84,7 @@ def case(ctx, i, tier):
             X = pd.concat([X, pd.DataFrame(rng.normal(0, 2, [len(extra_idx), nf]), extra_idx, columns=X.columns)]).sort_index()
             X = X[~X.index.duplicated()]
         ctx.cat("latency-with-intraday-feature-rows")
-    window = r.choice([1, 1, 2, 3, 7, 15, 30])
+    window = r.choice([1, 1, 2, 3, 7, 15, 30]) if not lat else r.choice([2, 3, 7])
     stride = r.choice([None, None, 1, 2, 3, 5])
     tf = r.choice([None, "z-score", "yeo-johnson"])
     clip = r.choice([5., 2., 0.5])
@@ -172,6 +172,7 @@ def case(ctx, i, tier):
         ctx.violation("C18:reset", error=repr(ex)[:300])
         return
     done = ep.reset_ended_episode(env)
+    refuse_k = r.randint(0, 6) if (sd == 0 and (r.random() < 0.4 or lat)) else None
     k = 0
     last = None
     first = True
@@ -217,6 +218,13 @@ def case(ctx, i, tier):
         if k > n + 2:
             ctx.violation("C18:episode-bounded", steps=k)
             return
+        if k == refuse_k:
+            # a decision the environment refuses (weights beyond max_long), caught by the caller who then decides
+            # properly for the same date: what is served afterwards is what it would have been anyway
+            try:
+                env.step(np.full(ny, 9.0))
+            except ValueError:
+                ctx.cat("decision-refused-then-resubmitted")
         try:
             obs, rw, done, info = env.step(env.action_space.sample() * 0.3)
         except ValueError:
